@@ -1,11 +1,11 @@
 use super::backoff_strategy::*;
-use super::helpers::is_recoverable_error;
+use super::helpers::{is_bind_error, is_recoverable_error};
 use crate::logging;
 use crate::request_reply::{Replier, Requestor};
 use crate::traits::KeepAliveStream;
 use futures::Future;
 use selium_std::errors::QuicError;
-use selium_std::errors::Result;
+use selium_std::errors::{Result, SeliumError};
 use selium_std::traits::codec::{MessageDecoder, MessageEncoder};
 use std::fmt::Debug;
 
@@ -117,18 +117,23 @@ where
     ResItem: Unpin + Send,
 {
     pub async fn listen(&mut self) -> Result<()> {
+        let mut attempts = self.backoff_strategy.clone().into_iter();
+
         loop {
             match self.stream.listen().await {
                 Err(err) if !is_recoverable_error(&err) => {
                     logging::keep_alive::unrecoverable_error(&err);
                     return Err(err);
                 }
-                _ => {
-                    // Every outage gets the full retry budget, however many were survived before
-                    let mut attempts = self.backoff_strategy.clone().into_iter();
-                    self.try_reconnect(&mut attempts).await?
-                }
+                // The registration was refused because another replier is bound: a failed attempt of
+                // the current outage, which keeps counting against its budget
+                Err(SeliumError::OpenStream(code, _)) if is_bind_error(code) => (),
+                // The stream was serving and got cut off: every outage gets the full retry budget,
+                // however many were survived before
+                _ => attempts = self.backoff_strategy.clone().into_iter(),
             };
+
+            self.try_reconnect(&mut attempts).await?
         }
     }
 }
